@@ -313,6 +313,26 @@ def _partial(ctx) -> None:
     if n == 0:
         # nothing partial is applied to element values any more: vacuous but fine
         ctx.ob("a.partial-ops", "display", "none", True, "no int()/round()/floor() on element values in the display code")
+    # an int element of a float column is shown as <its digits>.0: the digits come from the integer presentation (`:d`, int(v)) - an
+    # element that is a bool (a bool is an int; Vector([1.5, True]) keeps its True) would otherwise be shown as `True.0`
+    for f in _display_funcs(prog):
+        for js in [x for x in ast.walk(f.node) if isinstance(x, ast.JoinedStr)]:
+            vals = js.values
+            for a_, b_ in zip(vals, vals[1:]):
+                if isinstance(a_, ast.FormattedValue) and isinstance(b_, ast.Constant) and isinstance(b_.value, str) and b_.value.startswith(".0") \
+                        and isinstance(a_.value, ast.Name):
+                    # (an ELEMENT value - bound by a for over the preview / storage -, not a local computed from one: int(v) is digits)
+                    d_ = Defs(f)
+                    hows = [how for _, _, how in d_.assigns.get(a_.value.id, [])]
+                    if not hows or not all(how.startswith("for") for how in hows):
+                        continue
+                    spec = a_.format_spec
+                    spec_txt = "".join(v_.value for v_ in spec.values if isinstance(v_, ast.Constant)) if isinstance(spec, ast.JoinedStr) else ""
+                    ok = spec_txt.endswith("d") and a_.conversion == -1
+                    ctx.ob("a.partial-ops", f, f"digits:{a_.value.id}", ok, f"`{short(js)}` prints the element's digits (integer presentation)", js,
+                           message=f"{f.qualname}: `{short(js)}` puts '.0' behind str() of an int element: a bool element of a float column "
+                                   f"(Vector([1.5, True]) is <float> and keeps its True) is shown as `True.0` - use the integer "
+                                   f"presentation `{{{a_.value.id}:d}}`")
 
 
 _SCALAR_KINDS = {"int", "float", "str", "bool", "complex", "date", "datetime", "bytes"}
@@ -1321,6 +1341,8 @@ def _pure(ctx) -> None:
 
 _D = "display"
 MUTANTS = [
+    dict(id="bool-in-float-column-shown-as-text", module=_D, old='				out.append(f"{v:d}.0")', new='				out.append(f"{v}.0")', rules=["a.partial-ops"],
+         desc="seeded R8-C20-1: Vector([1.5, True]) prints True.0"),
     dict(id="repr-rows-setting-unchecked", module="display", old="		n = operator.index(n)\n", new="		pass\n", rules=["d.preview"], desc="reverts fix 30777a0"),
     dict(id="finite-guard-removed", module=_D, old="f\"{v:.1f}\" if math.isfinite(v) and v == int(v) else f\"{v:g}\"",
          new="f\"{v:.1f}\" if v == int(v) else f\"{v:g}\"", rules=["a.partial-ops"]),
